@@ -318,7 +318,7 @@ theorem calculateNewBits_eq_spec (bits : Bytes) (td : Int) (h4 : bits.length = 4
     ∃ b, calculateNewBits bits td = some b ∧ b.length = 4 ∧
       leToNat b = nextWorkRequired (leToNat bits) td powLimitMainnet := by
   obtain ⟨hbt, _⟩ := bitsToTarget_eq_setCompact bits h4 hexp hsign hov
-  generalize (setCompact (leToNat bits)).value = V at hbt hprod hbig
+  generalize hV : (setCompact (leToNat bits)).value = V at hbt hprod hbig
   -- the clamped timespan as a natural number
   have hc := clampTd_eq td
   have hcnn : 0 ≤ clampTd td := by omega
@@ -340,9 +340,254 @@ theorem calculateNewBits_eq_spec (bits : Bytes) (td : Int) (h4 : bits.length = 4
       have e2 : (14 * 24 * 60 * 60 : Int) * 4 = 4838400 := by decide
       rw [e1, e2]
       split <;> split <;> omega
+    have e3 : (14 * 24 * 60 * 60 : Int).toNat = 1209600 := by decide
     simp only [nextWorkRequired]
-    trace_state
-    sorry
-  sorry
+    rw [hV, hts, Int.toNat_natCast, e3, Nat.mod_eq_of_lt (by omega), powLimitMainnet_eq, Nat.min_def]
+    congr 1
+    split <;> split <;> omega
+  -- the code side
+  have hX1 : 2 ^ 16 ≤ min (V * c / 1209600) Gen.maxTarget := by
+    simp only [Gen.maxTarget, Nat.reducePow] at hbig ⊢; omega
+  have hX2 : min (V * c / 1209600) Gen.maxTarget < 2 ^ 256 := by
+    simp only [Gen.maxTarget, Nat.reducePow]; omega
+  obtain ⟨b, hb1, hb2, hb3⟩ := targetToBits_eq_getCompact _ hX1 hX2
+  refine ⟨b, ?_, hb2, by rw [hb3, hspec]⟩
+  rw [calculateNewBits_clampTd, hbt]
+  simp only [hpc, Gen.retargetDivisor, Gen.retargetCapCmp, Gen.retargetCapSet]
+  rw [← hb1]
+  have hdiv : ((V * c : Nat) : Int) / ((1209600 : Nat) : Int) = ((V * c / 1209600 : Nat) : Int) := by
+    omega
+  rw [hdiv]
+  generalize V * c / 1209600 = q
+  simp only [Gen.maxTarget]
+  split
+  · rw [if_neg (by omega)]; congr 1; omega
+  · rw [if_neg (by omega)]; congr 1; omega
+
+/-- Core's real mainnet limit 2^224 - 1 gives the same compact value as buidl's MAX_TARGET = 0xFFFF·2^208 -/
+theorem getCompact_cap (t : Nat) : getCompact (min t (2 ^ 224 - 1)) = getCompact (min t powLimitMainnet) := by
+  by_cases h : t ≤ powLimitMainnet
+  · have h' : t ≤ 2 ^ 224 - 1 := by
+      unfold powLimitMainnet at h; simp only [Nat.reducePow] at h ⊢; omega
+    rw [Nat.min_eq_left h, Nat.min_eq_left h']
+  · have hr : min t powLimitMainnet = powLimitMainnet := Nat.min_eq_right (by omega)
+    rw [hr]
+    have h28 : (256 : Nat) ^ 28 = 2 ^ 224 := by decide
+    have h27 : (256 : Nat) ^ (28 - 1) = 2 ^ 216 := by decide
+    have h25 : (256 : Nat) ^ (28 - 3) = 2 ^ 200 := by decide
+    have e1 : getCompact powLimitMainnet = 0x1d00ffff := by
+      rw [getCompact_eq (n := 28) (by decide) (by decide) (by decide)]
+      decide
+    rw [e1, getCompact_eq (n := 28) (by decide)
+      (by rw [h27]; unfold powLimitMainnet at h; simp only [Nat.reducePow] at h ⊢; omega)
+      (by rw [h28]; simp only [Nat.reducePow]; omega)]
+    rw [h25]
+    unfold powLimitMainnet at h
+    simp only [Nat.reducePow] at h ⊢
+    rw [if_pos (by omega)]
+    omega
+
+/-! ### check_pow -/
+
+theorem powCompare_int (proof t : Nat) : powCompare proof (.int t) = decide (proof < t) := by
+  simp [powCompare, cmpOp, Gen.checkPowOp]
+
+/-- check_pow: the code tests `proof < target` -/
+theorem checkPow_eq (hash256 : Bytes → Bytes) (h : Header) (s : Bytes) (hs : h.serialize = some s)
+    (h4 : h.bits.length = 4) (hexp : 3 ≤ leToNat h.bits / 2 ^ 24) :
+    checkPow hash256 h = some (decide (leToNat (hash256 s) <
+      (leToNat h.bits % 2 ^ 24) * 256 ^ (leToNat h.bits / 2 ^ 24 - 3))) := by
+  unfold checkPow
+  rw [hs, bitsToTarget_general _ h4 hexp]
+  simp only [Option.bind_eq_bind, Option.bind_some, powCompare_int]
+  rfl
+
+/-- agreement with CheckProofOfWork on in-range bits except when hash = target -/
+theorem checkPow_eq_spec_of_ne (hash256 : Bytes → Bytes) (h : Header) (s : Bytes) (hs : h.serialize = some s)
+    (h4 : h.bits.length = 4) (hexp : 3 ≤ leToNat h.bits / 2 ^ 24) (hsign : (leToNat h.bits / 2 ^ 23) % 2 = 0)
+    (hov : (setCompact (leToNat h.bits)).overflow = false) (hnz : (setCompact (leToNat h.bits)).value ≠ 0)
+    (limit : Nat) (hlim : (setCompact (leToNat h.bits)).value ≤ limit)
+    (hne : leToNat (hash256 s) ≠ (setCompact (leToNat h.bits)).value) :
+    checkPow hash256 h = some (checkProofOfWork (leToNat (hash256 s)) (leToNat h.bits) limit) := by
+  obtain ⟨hv, hneg⟩ := setCompact_value_of_ok _ hexp hsign hov
+  rw [checkPow_eq hash256 h s hs h4 hexp, ← hv]
+  unfold checkProofOfWork
+  simp only [hneg, hov, hnz, Nat.not_lt.mpr hlim, Bool.false_eq_true, or_self, if_false]
+  congr 1
+  rw [decide_eq_decide]
+  omega
+
+/-! ### HeadersMessage.is_valid -/
+
+theorem checkPow_some_hash (hash256 : Bytes → Bytes) (h : Header) (b : Bool) (hc : checkPow hash256 h = some b) :
+    ∃ s, h.serialize = some s ∧ h.hash hash256 = some (hash256 s).reverse := by
+  unfold checkPow at hc
+  cases hs : h.serialize with
+  | none => rw [hs] at hc; simp at hc
+  | some s => exact ⟨s, rfl, by simp [Header.hash, hs]⟩
+
+/-- the link test of is_valid: `if last_block and h.prev_block != last_block: return False` -/
+def linkedTo (last : Option Bytes) (h : Header) : Bool :=
+  match last with
+  | none => true
+  | some l => (l == []) || (h.prevBlock == l)
+
+theorem linkedTo_iff (last : Option Bytes) (h : Header) :
+    linkedTo last h = true ↔ (∀ l, last = some l → l ≠ [] → h.prevBlock = l) := by
+  cases last with
+  | none => simp [linkedTo]
+  | some l =>
+    by_cases hl : l = []
+    · simp [linkedTo, hl]
+    · simp [linkedTo, hl]
+
+theorem headersValidFrom_cons (hash256 : Bytes → Bytes) (last : Option Bytes) (h : Header) (hs : List Header) :
+    headersValidFrom hash256 last (h :: hs) = (do
+      let ok ← checkPow hash256 h
+      if !ok then pure false else
+      if !(linkedTo last h) then pure false else
+      let hh ← h.hash hash256
+      headersValidFrom hash256 (some hh) hs) := by
+  cases last <;> rfl
+
+theorem headersValidFrom_iff (hash256 : Bytes → Bytes) (hne : ∀ b, hash256 b ≠ []) (hs : List Header) :
+    ∀ last : Option Bytes, headersValidFrom hash256 last hs = some true ↔
+      (∀ h ∈ hs, checkPow hash256 h = some true) ∧
+      (∀ l b, last = some l → l ≠ [] → hs[0]? = some b → b.prevBlock = l) ∧
+      (∀ i, ∀ a b, hs[i]? = some a → hs[i+1]? = some b → some b.prevBlock = a.hash hash256) := by
+  induction hs with
+  | nil => intro last; simp [headersValidFrom]
+  | cons h hs ih =>
+    intro last
+    rw [headersValidFrom_cons]
+    cases hc : checkPow hash256 h with
+    | none =>
+      simp only [Option.bind_eq_bind, Option.bind_none, reduceCtorEq, false_iff]
+      intro hcon
+      have := hcon.1 h List.mem_cons_self
+      rw [hc] at this; cases this
+    | some ok =>
+      cases ok with
+      | false =>
+        simp only [Option.bind_eq_bind, Option.bind_some, Bool.not_false, if_true, pure, Option.some.injEq,
+          Bool.false_eq_true, false_iff]
+        intro hcon
+        have := hcon.1 h List.mem_cons_self
+        rw [hc] at this; cases this
+      | true =>
+        obtain ⟨s, hser, hhash⟩ := checkPow_some_hash hash256 h true hc
+        have hhne : (hash256 s).reverse ≠ [] := by simpa using hne s
+        simp only [Option.bind_eq_bind, Option.bind_some, Bool.not_true, Bool.false_eq_true, if_false, hhash]
+        have hlink := linkedTo_iff last h
+        cases hlk : linkedTo last h with
+        | true =>
+          rw [hlk] at hlink
+          simp only [Bool.not_true, Bool.false_eq_true, if_false]
+          rw [ih (some (hash256 s).reverse)]
+          have hl := hlink.mp rfl
+          constructor
+          · rintro ⟨a1, a2, a3⟩
+            refine ⟨?_, ?_, ?_⟩
+            · intro x hx
+              rcases List.mem_cons.mp hx with rfl | hx
+              · exact hc
+              · exact a1 x hx
+            · intro l b hlast hlne hb
+              simp only [List.getElem?_cons_zero, Option.some.injEq] at hb
+              subst hb
+              exact hl l hlast hlne
+            · intro i a b ha hb
+              cases i with
+              | zero =>
+                simp only [List.getElem?_cons_zero, Option.some.injEq] at ha
+                subst ha
+                simp only [Nat.zero_add, List.getElem?_cons_succ] at hb
+                rw [hhash, a2 _ b rfl hhne hb]
+              | succ i =>
+                simp only [List.getElem?_cons_succ] at ha hb
+                exact a3 i a b ha hb
+          · rintro ⟨a1, a2, a3⟩
+            refine ⟨fun x hx => a1 x (List.mem_cons_of_mem _ hx), ?_, ?_⟩
+            · intro l b hlast _ hb
+              cases hlast
+              have := a3 0 h b (by simp) (by simpa using hb)
+              rw [hhash] at this
+              exact Option.some.inj this
+            · intro i a b ha hb
+              exact a3 (i + 1) a b (by simpa using ha) (by simpa using hb)
+        | false =>
+          rw [hlk] at hlink
+          simp only [Bool.not_false, if_true, pure, Option.some.injEq, Bool.false_eq_true, false_iff]
+          rintro ⟨_, a2, _⟩
+          have : false = true := hlink.mpr (fun l hlast hlne => a2 l h hlast hlne (by simp))
+          cases this
+
+/-- HeadersMessage.is_valid is the fold it should be: true iff every header passes check_pow and each
+    prev_block equals the previous header's hash (`hash256` never returns the empty string) -/
+theorem headersValid_iff (hash256 : Bytes → Bytes) (hne : ∀ b, hash256 b ≠ []) (hs : List Header) :
+    headersValid hash256 hs = some true ↔
+      (∀ h ∈ hs, checkPow hash256 h = some true) ∧
+      (∀ i, ∀ a b, hs[i]? = some a → hs[i+1]? = some b → some b.prevBlock = a.hash hash256) := by
+  unfold headersValid
+  rw [headersValidFrom_iff hash256 hne hs none]
+  simp
+
+/-! ### the known findings -/
+
+/-- F17c: exponent < 3 yields a float (Core shifts the mantissa right instead), and the sign bit is taken as
+    magnitude (Core: negative, magnitude without bit 23).  A mantissa of exactly 0x800000 is *not* negative
+    for Core (nWord = 0), its value is 0. -/
+theorem F17c_witness :
+    bitsToTarget [0x12, 0x34, 0x56, 0x02] = some (.frac 0x563412 1) ∧ (setCompact 0x02563412).value = 0x5634 ∧
+    bitsToTarget [0x00, 0x00, 0x80, 0x03] = some (.int 0x800000) ∧
+      (setCompact 0x03800000).negative = false ∧ (setCompact 0x03800000).value = 0 ∧
+    bitsToTarget [0x01, 0x00, 0x80, 0x03] = some (.int 0x800001) ∧
+      (setCompact 0x03800001).negative = true ∧ (setCompact 0x03800001).value = 1 := by
+  decide
+
+theorem getCompact_small : getCompact 0x1234 = 0x02123400 ∧ getCompact 0 = 0 := by
+  have h2 : byteLen 0x1234 = 2 := byteLen_eq (n := 2) (by decide) (by decide) (by decide)
+  constructor
+  · unfold getCompact; rw [h2]; decide
+  · unfold getCompact; rw [byteLen_zero]; decide
+
+/-- F17d: a target below 2^16 gives fewer than 4 bytes; 0 raises -/
+theorem F17d_witness :
+    targetToBits 0x1234 = some [0x34, 0x12, 0x02] ∧ getCompact 0x1234 = 0x02123400 ∧
+    targetToBits 0 = none ∧ getCompact 0 = 0 :=
+  ⟨by decide +kernel, getCompact_small.1, by decide +kernel, getCompact_small.2⟩
+
+/-- the header used by the F17e witnesses -/
+def f17eHeader (bits : Bytes) : Header :=
+  ⟨1, List.replicate 32 0, List.replicate 32 0, 0, bits, List.replicate 4 0⟩
+
+/-- F17e: (a) with a hash equal to the target, consensus accepts and check_pow refuses;
+    (b) an overflowing target (exponent 34) is accepted by check_pow for every 32-byte hash while SetCompact
+    reports overflow and CheckProofOfWork refuses every hash -/
+theorem F17e_witness :
+    (checkPow (fun _ => natToLE' 32 (0xffff * 256 ^ 26)) (f17eHeader [0xff, 0xff, 0x00, 0x1d]) = some false ∧
+      leToNat [0xff, 0xff, 0x00, 0x1d] = 0x1d00ffff ∧
+      checkProofOfWork (leToNat (natToLE' 32 (0xffff * 256 ^ 26))) 0x1d00ffff powLimitMainnet = true) ∧
+    ((∀ hash256 : Bytes → Bytes, (∀ b, (hash256 b).length = 32) →
+        checkPow hash256 (f17eHeader [0xff, 0xff, 0x7f, 0x22]) = some true) ∧
+      leToNat [0xff, 0xff, 0x7f, 0x22] = 0x227fffff ∧
+      (setCompact 0x227fffff).overflow = true ∧
+      ∀ hash, checkProofOfWork hash 0x227fffff (2 ^ 256 - 1) = false) := by
+  refine ⟨⟨by decide +kernel, by decide, by decide +kernel⟩, ?_, by decide, by decide, ?_⟩
+  · intro hash256 hlen
+    have hser : ∃ s, (f17eHeader [0xff, 0xff, 0x7f, 0x22]).serialize = some s :=
+      Option.isSome_iff_exists.mp (by decide +kernel)
+    obtain ⟨s, hs⟩ := hser
+    rw [checkPow_eq hash256 _ s hs (by decide) (by decide)]
+    have hlt := leToNat_lt (hash256 s)
+    rw [hlen] at hlt
+    have hbig : (256 : Nat) ^ 32 ≤ leToNat (f17eHeader [0xff, 0xff, 0x7f, 0x22]).bits % 2 ^ 24 *
+        256 ^ (leToNat (f17eHeader [0xff, 0xff, 0x7f, 0x22]).bits / 2 ^ 24 - 3) := by decide +kernel
+    congr 1
+    rw [decide_eq_true_eq]
+    omega
+  · intro hash
+    have hov : (setCompact 0x227fffff).overflow = true := by decide
+    simp [checkProofOfWork, hov]
 
 end Buidl.Merkle
